@@ -70,6 +70,31 @@ pub fn emit_sign_judged_opt(shape: &Shape, blob: &[u8], msg: &[u8], accept: bool
     out
 }
 
+/// the in-memory signing key: same signature as the byte-level function, and afterwards it holds
+/// exactly the successor key the byte-level function hands to its callback
+pub fn emit_try_sign(shape: &Shape, blob: &[u8], msg: &[u8], tag: &str, cost: f64) {
+    let (sig, after) = try_sign(shape.hash, blob, msg);
+    let mut l = Line::new("try_sign");
+    l.str("hash", shape.hash).hex("blob", blob).hex("msg", msg).out_bytes("sig", &sig).out_bytes("after", &after)
+        .raw("cost", &format!("{:.2}", cost)).str("tag", tag);
+    if !is_sha(shape.hash) {
+        l.raw("nomodel", "true");
+    }
+    l.emit();
+    let (sig2, calls) = sign(shape.hash, blob, msg, true, None);
+    let same_sig = sig == sig2;
+    let same_key = match (&after, calls.first()) {
+        (Out::Ok(a), Some(c)) => *a == c.0,
+        (Out::Ok(a), None) => a == blob || sig2 != Out::Err && false,
+        (Out::Err, None) => sig2 == Out::Err, // from_bytes refused the blob
+        _ => false,
+    };
+    let ok = same_sig && same_key && sig != Out::Panic;
+    Line::new("oracle").str("name", "signing_key_same_as_sign").raw("ok", if ok { "true" } else { "false" })
+        .str("hash", shape.hash).hex("blob", blob).str("tag", tag)
+        .raw("same_sig", if same_sig { "true" } else { "false" }).raw("same_key", if same_key { "true" } else { "false" }).emit();
+}
+
 pub fn run(seed: u64, thorough: bool) {
     let mut rng = Rng::new(seed ^ 0xC04);
     let mut shapes = vec![
@@ -100,14 +125,21 @@ pub fn run(seed: u64, thorough: bool) {
                 let msg = rng.bytes((c % 5) as usize * 13);
                 emit_sign_judged(shape, &set_counter(&sk, c), &msg, accept, Some(th), "lifetime", shape.sign_cost());
             }
+            if c % 3 == 0 {
+                emit_try_sign(shape, &set_counter(&sk, c), b"in-memory", "lifetime", shape.sign_cost());
+            }
             c += step;
         }
         // last leaf: hands over the wiped key
         for accept in [true, false] {
             emit_sign_judged(shape, &set_counter(&sk, total - 1), b"last", accept, Some(th), "last", shape.sign_cost());
         }
+        emit_try_sign(shape, &set_counter(&sk, total - 1), b"last", "last", shape.sign_cost());
+        emit_try_sign(shape, &set_counter(&sk, total - 2), b"last but one", "lifetime", shape.sign_cost());
         // failing preconditions: wiped key, truncated / extended key, malformed parameter byte
         let w = wiped(n);
+        emit_try_sign(shape, &w, b"x", "wiped", 0.01);
+        emit_try_sign(shape, &sk[..sk.len() - 1], b"x", "truncated", 0.01);
         for accept in [true, false] {
             emit_sign_judged(shape, &w, b"x", accept, None, "wiped", 0.01);
             for cut in [0usize, 1, 7, 8, 15, 16, sk.len() - 1] {
